@@ -111,7 +111,13 @@ def alloc_replay(ctx):
     waited, awaited and consumed by a callback awaiter, co_await next(), next().subscribe()); the replayer counts the
     global operator new calls made inside the consumer's accesses (generator_replay.cpp: Win / Pause) and the
     projection fixes that running total at 0 in every state.  Capped edge cover, a few seconds of replay."""
-    rp = vlib.compile_harness(vlib.VERIF + "/harness/generator_replay.cpp", "generator_replay", sanitize=not ctx.quick)
+    rp = vlib.compile_harness(vlib.VERIF + "/harness/generator_replay.cpp", "generator_replay", sanitize=not ctx.quick,
+                              fallback_defines=["GEN_NO_PRIVATE"])
+    nopriv = vlib.compile_harness.last_fallback
+    if nopriv:
+        ctx.assume("generator replay built WITHOUT the probes of the private hand-over record (the record's representation "
+                   "changed and the full harness no longer compiles): public observations and allocations only")
+    pj = (lambda st: dict(proj(st), pr={})) if nopriv else proj
     jobs = [("Generator_noarg.cfg", "gen_alloc", False, {"BodyKinds": '{"yield", "throw", "return"}'}),
             ("Generator_arg.cfg", "gen_alloc_arg", True, {"BodyKinds": '{"ynull", "yield", "throw", "return"}'})]
     for (cfg, tag, witharg, consts) in jobs:
@@ -122,7 +128,7 @@ def alloc_replay(ctx):
 
         def hdr(k, st0, witharg=witharg):
             return {"witharg": witharg, "modes": ["native", "coro", "cb"]}
-        replay(ctx, "Generator", "Generator", cfg, tag, rp, proj, header_fn=hdr, merge_re=MERGE,
+        replay(ctx, "Generator", "Generator", cfg, tag, rp, pj, header_fn=hdr, merge_re=MERGE,
                must_take=["NextSync", "NextAsync", "NextFuture", "BodyStep", "YieldSuspend", "UnblockSync", "UnblockFuture",
                           "ResumeAwt", "FinalSuspend", "Destroy"],
                constants=consts, max_paths=2500 if ctx.quick else None, replay_timeout=900, tlc_kw={"workers": 4})
